@@ -355,7 +355,7 @@ Qed.
 Lemma exec_type_ok_all : lock_discipline_check = true -> forall e, In e exec_types -> exec_type_ok e = true.
 Proof.
   intros H. destruct (check_parts H) as [He _]. unfold exec_check in He.
-  repeat (apply andb_true_iff in He; destruct He as [He ?]).
+  apply andb_true_iff in He. destruct He as [He _]. apply andb_true_iff in He. destruct He as [He _].
   intros e Hin. rewrite forallb_forall in He. auto.
 Qed.
 
@@ -400,11 +400,9 @@ Proof.
   match goal with Hf : forallb (method_ok e) _ = true |- _ => rewrite forallb_forall in Hf; pose proof (Hf m) as Hm end.
   unfold find_method in Ef. pose proof (find_some _ _ Ef) as [Hin Hn]. specialize (Hm Hin).
   unfold method_ok in Hm. apply String.eqb_eq in Hn.
-  repeat (apply andb_true_iff in Hm; destruct Hm as [Hm ?]).
-  rewrite Hn in *. change (String.eqb PBF SETTER) with false in *. change (String.eqb PBF PBF) with true in *.
-  match goal with Hx : (mi_rlock_defer_first m && _ && _)%bool = true |- _ =>
-    apply andb_true_iff in Hx; destruct Hx as [Hx _]; rewrite Hx end.
-  reflexivity.
+  apply andb_true_iff in Hm. destruct Hm as [_ Hb]. rewrite Hn in Hb.
+  change (String.eqb PBF SETTER) with false in Hb. change (String.eqb PBF PBF) with true in Hb. cbv iota in Hb.
+  apply andb_true_iff in Hb. destruct Hb as [Hb _]. rewrite Hb. reflexivity.
 Qed.
 
 Lemma setter_prog_shape_all :
@@ -458,10 +456,11 @@ Proof.
     unfold pbf_gas_reads. apply in_flat_map. exists m. split; [exact Hm|].
     apply mem_s_In in Hl. rewrite Hl. apply filter_In. split; [exact Hr|apply mem_s_In; exact Hf]. }
   assert (Hpbf_in : In PBF (locked_reach e)).
-  { match goal with Hc : closed_under_calls e [PBF] (locked_reach e) = true |- _ => unfold closed_under_calls in Hc;
-      apply andb_true_iff in Hc; destruct Hc as [Hc _]; simpl in Hc end.
+  { assert (Hcl : closed_under_calls e [PBF] (locked_reach e) = true) by assumption.
+    unfold closed_under_calls in Hcl. apply andb_true_iff in Hcl. destruct Hcl as [Hcl _].
+    cbn [forallb] in Hcl.
     destruct (find_method e PBF); [|destruct (find_method e SETTER); discriminate].
-    apply andb_true_iff in Hc. destruct Hc as [Hc _]. apply mem_s_In. exact Hc. }
+    apply andb_true_iff in Hcl. destruct Hcl as [Hcl _]. apply mem_s_In. exact Hcl. }
   destruct (String.eqb (mi_name m) SETTER) eqn:Es.
   - (* SetNewGasConfig *)
     apply String.eqb_eq in Es.
@@ -514,8 +513,8 @@ Proof. vm_compute. reflexivity. Qed.
 Lemma mm_progs_ok : forall p, In p mm_progs -> prog_ok Out p = true.
 Proof.
   destruct (check_parts lock_discipline_ok) as [_ [Hm _]]. unfold mutexmap_check in Hm.
-  repeat (apply andb_true_iff in Hm; destruct Hm as [Hm ?]).
-  match goal with Hx : forallb (fun p => prog_ok Out p) mm_progs = true |- _ => rewrite forallb_forall in Hx; exact Hx end.
+  apply andb_true_iff in Hm. destruct Hm as [Hm _]. apply andb_true_iff in Hm. destruct Hm as [_ Hm].
+  rewrite forallb_forall in Hm. exact Hm.
 Qed.
 
 (* DATA-RACE FREEDOM ON MutexMap.values (model level): any number of threads calling any methods of one map *)
